@@ -56,13 +56,17 @@ theorem mergeOffset_inv (m : Mol) (o : Off) (h : Inv m o) : mergeOffset m = (o.n
       simp [Mol.keys, he, iota1_length] at this
       omega
     simp [he, hn]
-  · have h2 := h.2
+  · have hmk := (lastKey_inv m o h he).2
+    have h2 := h.2
     rw [if_neg he] at h2
     have : m.nodes.isEmpty = false := by
       cases hm : m.nodes with
       | nil => exact absurd hm he
       | cons _ _ => rfl
-    simp [this, h2.1]
+    simp only [this, Bool.false_eq_true, if_false]
+    rcases h2.1 with hmx | hmx
+    · simp [hmx]
+    · simp [hmx, hmk]
 
 theorem inv_nrexcl (m : Mol) (o : Off) (x : Option Int) (h : Inv m o) : Inv { m with nrexcl := x } o := h
 
